@@ -20,6 +20,8 @@ import (
 
 var memLimitBytes uint64 = 40 << 30
 
+var printPaths = os.Getenv("SYMGO_PRINTPATHS") != ""
+
 var traceBranches = os.Getenv("SYMGO_TRACEBR") != ""
 
 func runtimeStack(buf []byte) int { return runtime.Stack(buf, false) }
@@ -101,6 +103,7 @@ type Exec struct {
 	stubJSON     bool
 	addrs        map[*value][]value
 	addrVars     [][]*Term
+	addrOwner    map[*Term]int
 	poolReuse    int
 	policy       harnessPolicy
 	unknownForks int
@@ -849,6 +852,9 @@ func (p *Program) explore(harnesses []*ssa.Function, cfg *RunConfig) *RunStats {
 					fmt.Fprintf(os.Stderr, "slow path %.1fs steps=%d decs=%d queries=%d solver=%.1fs outcome=%s inputs=%s\n", d.Seconds(), res.Steps, res.NDec, sol.Queries-q0, (sol.Time - st0).Seconds(), res.Outcome, renderInputs(res.Inputs))
 				}
 				n := npaths.Add(1)
+				if printPaths {
+					fmt.Fprintf(os.Stderr, "PATH %s %s %s\n", res.Harness, res.Outcome, renderInputs(res.Inputs))
+				}
 				mu.Lock()
 				st.Paths++
 				st.ByOutcome[res.Outcome]++
